@@ -40,6 +40,16 @@ def op_library():
             if nr is not None:
                 r["noreply"] = nr
             out.append(r)
+    # the same operations with their optional arguments away from the defaults (a code path may depend on them)
+    for nr in (None, True, False):
+        for r in ({"op": "flush_all", "delay": 3}, {"op": "set", "key": TXT, "value": b"val", "expire": 60, "flags": 5},
+                  {"op": "touch", "key": TXT, "expire": 0}, {"op": "cas", "key": TXT, "value": b"c", "cas": "2", "expire": 30, "flags": 1},
+                  {"op": "set_many", "values": {TXT: b"1"}, "expire": 9, "flags": 2}, {"op": "append", "key": TXT, "value": b"", "expire": -1}):
+            r = dict(r)
+            if nr is not None:
+                r["noreply"] = nr
+            out.append(r)
+    out += [{"op": "gat", "key": TXT, "expire": 0}, {"op": "gats", "key": MISSING, "expire": -1}, {"op": "stats", "args": ["settings"]}]
     out += [{"op": "incr", "key": TXT, "delta": 1}, {"op": "incr", "key": MISSING, "delta": 1},
             {"op": "version"}, {"op": "stats"}, {"op": "cache_memlimit", "memlimit": 64}, {"op": "quit"}, {"op": "shutdown"}]
     return out
